@@ -57,6 +57,36 @@ ASSUME = [
 ]
 
 
+def run_table_traces(out, prop, tier):
+    """direction B: histories of imports into one array object, validated by TLC (spec/trace/Trace_Tables.tla)"""
+    import re
+    from . import trace_tables as tt
+    ntraces, nsteps = (80, 8) if tier == "quick" else (1500, 12)
+    batch = tt.record_batch(ntraces, nsteps, out.seed)
+    acc, rej, res = tt.validate_batch(batch, workers=4 if tier == "quick" else 8)
+    out.states += res.distinct
+    out.transitions += res.generated
+    out.models.append({"model": "Trace_Tables", "states": res.distinct, "generated": res.generated, "traces": ntraces, "accepted": len(acc),
+                       "wall_s": round(res.wall, 2)})
+    bad = []
+    for tid, (pos, clause) in rej.items():
+        m = re.search(r"\{([^}]*)\}", clause)
+        if m and prop not in m.group(1).split(","):
+            continue
+        tr = batch["traces"][tid - 1]
+        vec = {"op": "trace", "ds": tr["ds"], "wide": tr["events"][pos - 1]["wide"], "styleid": 0, "faults": [],
+               "trace": {"ds": tr["ds"], "init": tr["init"], "events": tr["events"][:pos]}}
+        bad.append((vec, [f"{{{prop}}} recorded history of imports into one array (dims {tr['ds']}) rejected by the specification at import {pos}: {clause}"]))
+    out.judge(bad, "tables_trace", lambda v, p: {"engine": "tables_trace", "clause": p[0].split(": ")[-1][:40]})
+    out.traces_validated += ntraces
+    out.extra["recorded_import_histories_validated_by_TLC"] = ntraces
+    out.extra["recorded_imports"] = sum(len(t["events"]) for t in batch["traces"])
+    out.assumptions.append(
+        "direction B (Trace_Tables.tla): one array object per trace, 8 (thorough 12) successive set_values_from_df calls with frames rendered from "
+        "random abstract tables (1-3 dims, long / wide, random styles incl. CSV text, 0-3 random faults, random flags, two item orders); a refused "
+        "import must leave the array exactly as the previous call left it, an accepted one makes it the table's result")
+
+
 def check_C11(tier, seed):
     out = Outcome("C11", tier, seed)
     if tier == "quick":
@@ -65,6 +95,7 @@ def check_C11(tier, seed):
     else:
         models = [tab_model("import", 4, 0, ALL_STYLES, 4), tab_model("export", 4, 0, ALL_STYLES, 4), tab_model("import", 2, 1, ALL_STYLES)]
     run_tables(out, "C11", models)
+    run_table_traces(out, "C11", tier)
     # the round-trip clause on large instances (hundreds of items per dimension)
     cases = [(201, 3, 0), (130, 2, 1), (40, 140, 0), (33000, 2, 0), (160, 6, 0), (128, 1, 1)] if tier == "quick" else \
         [(201, 3, 0), (130, 2, 1), (40, 140, 0), (33000, 2, 0), (160, 6, 0), (128, 1, 1), (300, 5, 1), (2, 400, 0), (260, 130, 1), (2, 70000, 1), (256, 4, 0)]
@@ -87,6 +118,7 @@ def check_C12(tier, seed):
         models = [tab_model("import", 3, 1, ALL_STYLES, 4), tab_model("import", 2, 2, {1, 2, 3, 4, 5}, 4), tab_model("import", 2, 2, {6, 7, 8, 9, 10}, 4),
                   tab_model("import", 1, 3, {1, 5, 8}, 2)]
     run_tables(out, "C12", models)
+    run_table_traces(out, "C12", tier)
     # the fault clauses on large instances (dimensions with hundreds / tens of thousands of items)
     cases = [(151, 3, 0), (40, 140, 1), (33000, 2, 0)] if tier == "quick" else [(151, 3, 0), (40, 140, 1), (33000, 2, 0), (300, 130, 1), (2, 70000, 1)]
     bad = core.replay_parallel(replay_tables.run_large_faulty, cases)
